@@ -999,6 +999,7 @@ Section Univ.
     - destruct G as [H S]. split; [exact H|]. intros _. unfold Synced, idx. simpl. apply save_diskok. apply H.
     - destruct R as [A|R]; [|congruence]. destruct G as [H S].
       destruct (reopen_good s H (S A)) as [H' S']. split; auto.
+    - exact G.
     - destruct (mem k (blobs s)); [exact G|]. simpl.
       apply (good_same cfg s); [exact G| |reflexivity|reflexivity].
       destruct G as [H _]. unfold Inv, idx in *. simpl. split.
@@ -1009,14 +1010,30 @@ Section Univ.
       + intros k' Mk [<-|I]; [congruence|]. eapply inv_g2b; eauto.
   Qed.
 
-  Lemma run_good cfg h : forall s,
+  Lemma good_cfg cfg cfg' s : autosave cfg' = autosave cfg -> Good cfg s -> Good cfg' s.
+  Proof. intros E [H S]. split; auto. rewrite E. exact S. Qed.
+  Lemma next_cfg_autosave cfg o : autosave (next_cfg cfg o) = autosave cfg.
+  Proof. destruct o; reflexivity. Qed.
+
+  Lemma run_good h : forall cfg s,
     Good cfg s -> wf_history h -> (autosave cfg = true \/ no_reopen h) -> Good cfg (run cfg h s).
   Proof.
-    induction h as [|oo h IH]; intros s G W R; simpl; auto.
+    induction h as [|oo h IH]; intros cfg s G W R; simpl; auto.
     inversion W as [|? ? W1 W2]; subst.
+    apply (good_cfg (next_cfg cfg (fst oo))); [symmetry; apply next_cfg_autosave|].
     apply IH; auto.
-    - apply step_good; auto. destruct R as [A|R]; auto. right. now inversion R.
-    - destruct R as [A|R]; auto. right. now inversion R.
+    - apply (good_cfg cfg); [apply next_cfg_autosave|].
+      apply step_good; auto. destruct R as [A|R]; auto. right. now inversion R.
+    - rewrite next_cfg_autosave. destruct R as [A|R]; auto. right. now inversion R.
+  Qed.
+
+  Lemma run_app h : forall cfg s x,
+    exists cfg', autosave cfg' = autosave cfg /\ run cfg (h ++ [x]) s = fst (step cfg' (run cfg h s) x).
+  Proof.
+    induction h as [|oo h IH]; intros cfg s x; simpl.
+    - exists cfg. auto.
+    - destruct (IH (next_cfg cfg (fst oo)) (fst (step cfg s oo)) x) as (c & E & Hc).
+      exists c. split; auto. now rewrite E, next_cfg_autosave.
   Qed.
 
   Lemma good_empty cfg : Good cfg store_empty.
@@ -1080,7 +1097,7 @@ Section Univ.
     let s := run cfg h store_empty in
     obs_equiv T (reopen s) s /\ disk_valid s = true.
   Proof.
-    intros A W s. destruct (run_good cfg h store_empty (good_empty cfg) W (or_introl A)) as [H S].
+    intros A W s. destruct (run_good h cfg store_empty (good_empty cfg) W (or_introl A)) as [H S].
     split; [apply reopen_equiv | apply disk_valid_inv]; auto.
   Qed.
 
@@ -1091,9 +1108,9 @@ Section Univ.
     obs_equiv T (reopen s) s /\ disk_valid s = true.
   Proof.
     intros W R s.
-    destruct (run_good cfg h store_empty (good_empty cfg) W (or_intror R)) as [H _].
+    destruct (run_good h cfg store_empty (good_empty cfg) W (or_intror R)) as [H _].
     assert (E : s = do_save o (run cfg h store_empty)).
-    { unfold s, OciIndex.run. rewrite fold_left_app. reflexivity. }
+    { unfold s. destruct (run_app h cfg store_empty (OSave, o)) as (c & _ & ->). reflexivity. }
     assert (H' : Inv s) by (rewrite E; exact H).
     assert (S' : Synced s).
     { rewrite E. unfold Synced, idx. simpl. apply save_diskok. apply H. }
@@ -1122,13 +1139,15 @@ Section Univ.
     - simpl. destruct (reopen_good s H (S (or_intror (R eq_refl)))) as [H' S']. split; auto.
   Qed.
 
-  Lemma run_good2 cfg h : forall b s,
+  Lemma run_good2 h : forall cfg b s,
     Good2 cfg b s -> wf_history h -> reopen_after_save b h -> Inv (run cfg h s).
   Proof.
-    induction h as [|oo h IH]; intros b s G W R; simpl; [apply G|].
+    induction h as [|oo h IH]; intros cfg b s G W R; simpl; [apply G|].
     inversion W as [|? ? W1 W2]; subst.
-    apply (IH (saved_after (fst oo))); auto.
-    - apply (step_good2 cfg b); auto. intro E. simpl in R. rewrite E in R. apply R.
+    apply (IH (next_cfg cfg (fst oo)) (saved_after (fst oo))); auto.
+    - assert (G' : Good2 cfg (saved_after (fst oo)) (fst (step cfg s oo))).
+      { apply (step_good2 cfg b); auto. intro E. simpl in R. rewrite E in R. apply R. }
+      destruct G' as [H' S']. split; auto. now rewrite next_cfg_autosave.
     - simpl in R. destruct (fst oo); simpl; try exact R. apply R.
   Qed.
 
@@ -1139,9 +1158,9 @@ Section Univ.
   Proof.
     intros W R s.
     assert (H : Inv (run cfg h store_empty)).
-    { apply (run_good2 cfg h true); auto. split; [apply inv_empty | intros _; apply synced_empty]. }
+    { apply (run_good2 h cfg true); auto. split; [apply inv_empty | intros _; apply synced_empty]. }
     assert (E : s = do_save o (run cfg h store_empty)).
-    { unfold s, OciIndex.run. rewrite fold_left_app. reflexivity. }
+    { unfold s. destruct (run_app h cfg store_empty (OSave, o)) as (c & _ & ->). reflexivity. }
     assert (H' : Inv s) by (rewrite E; exact H).
     assert (S' : Synced s).
     { rewrite E. unfold Synced, idx. simpl. apply save_diskok. apply H. }
@@ -1156,7 +1175,7 @@ Section Univ.
     (forall k, mf k = true -> In k (gr s) -> In k (blobs s)) /\
     (forall r d, lookup r (r_index (res s)) = Some d -> In (d_node d) (blobs s)).
   Proof.
-    intros W R s. destruct (run_good cfg h store_empty (good_empty cfg) W R) as [H _].
+    intros W R s. destruct (run_good h cfg store_empty (good_empty cfg) W R) as [H _].
     split; [|split].
     - intros k Mk Ik. split; [eapply inv_k | eapply inv_g2b]; eauto.
     - intros k Mk Ik. eapply inv_g2a; eauto.
